@@ -591,7 +591,56 @@ fn budget(tier: Tier) -> Budget {
     }
 }
 
+/// A deployment of `app::rns_plain` wrapper objects (one component per plaintext modulus).
+fn rnsp_run(i: usize, run_seed: u64) -> RunOut {
+    let mut out = RunOut::default();
+    let mut rng = Prng::new(run_seed).fork("rnsp");
+    let Some(specs) = (0..8).find_map(|_| crate::rnsp::draw_specs(&mut rng)) else {
+        out.degenerate = true;
+        return out;
+    };
+    let objects: Vec<(String, u64)> = (0..rng.range(1, 5)).map(|j| (crate::rnsp::KINDS[(i + j + rng.usize_below(7)) % crate::rnsp::KINDS.len()].to_string(), rng.next_u64() >> 1)).collect();
+    let (ws, rs) = (transport_script(&mut rng), transport_script(&mut rng));
+    let ent = prng::mix(run_seed, 0xC14, 7);
+    let scn = json!({"rnsp": true, "specs": specs.iter().map(|s| s.to_json()).collect::<Vec<_>>(), "entropy_seed": ent,
+        "objects": objects.iter().map(|(k, s)| json!([k, s])).collect::<Vec<_>>(), "write_script": ws.to_json(), "read_script": rs.to_json()});
+    out.count("evaluations", 1);
+    match crate::rnsp::deployment(&specs, ent, &objects, &ws, &rs) {
+        Ok((found, checked)) => {
+            out.count("objects_checked", checked);
+            out.count("rnsp.deployments", 1);
+            out.count("rnsp.objects_checked", checked);
+            for (k, _) in &objects {
+                out.distinct.push(util::h64(format!("rnsp|{}|{}", k, specs[0].class()).as_bytes()));
+            }
+            for (key, class, detail) in found {
+                out.violations.push(Violation { key, class, detail: format!("rns_plain deployment over {} x{} moduli: {}", specs[0].class(), specs.len(), detail), replay: json!({"scenario": scn}) });
+            }
+        }
+        Err(e) => {
+            out.count(&format!("skipped.rnsp_{}", e.split(':').next().unwrap_or("?").replace(' ', "_")), 1);
+            out.degenerate = true;
+        }
+    }
+    let mut lh = LogHash::new();
+    lh.str(&scn.to_string());
+    lh.u64(out.violations.len() as u64);
+    out.log_hash = lh.finish();
+    out
+}
+
+fn rnsp_rerun(scn: &Value) -> Option<Vec<(String, String, String)>> {
+    let specs = scn["specs"].as_array()?.iter().map(ParamSpec::from_json).collect::<Option<Vec<_>>>()?;
+    let objects = scn["objects"].as_array()?.iter().map(|x| Some((x[0].as_str()?.to_string(), x[1].as_u64()?))).collect::<Option<Vec<_>>>()?;
+    let ws = Script::from_json(&scn["write_script"])?;
+    let rs = Script::from_json(&scn["read_script"])?;
+    crate::rnsp::deployment(&specs, scn["entropy_seed"].as_u64()?, &objects, &ws, &rs).ok().map(|x| x.0)
+}
+
 fn one_run(i: usize, run_seed: u64) -> RunOut {
+    if i % 40 == 23 {
+        return rnsp_run(i, run_seed);
+    }
     let mut out = RunOut::default();
     let root = Prng::new(run_seed);
     let mut rng = root.fork("scenario");
@@ -650,6 +699,9 @@ fn reproduces(scn: &Scn, key: &str) -> Option<Found> {
 
 /// Shrink: drop stream objects, drop fragmentation, shrink parameters.
 fn minimise(v: &Violation) -> Violation {
+    if v.replay["scenario"]["rnsp"].as_bool() == Some(true) {
+        return v.clone();
+    }
     let Some(mut scn) = Scn::from_json(&v.replay["scenario"]) else { return v.clone() };
     let Some(mut best) = reproduces(&scn, &v.key) else { return v.clone() };
     let mut progress = true;
@@ -694,6 +746,24 @@ fn minimise(v: &Violation) -> Violation {
 }
 
 pub fn replay(doc: &Value) -> i32 {
+    if doc["replay"]["scenario"]["rnsp"].as_bool() == Some(true) {
+        let Some(found) = rnsp_rerun(&doc["replay"]["scenario"]) else {
+            eprintln!("replay diverged: rns_plain scenario no longer builds");
+            return 2;
+        };
+        let want = doc["key"].as_str().unwrap_or("");
+        return match found.iter().find(|f| f.0 == want).or(found.first()) {
+            Some((k, c, d)) => {
+                println!("VIOLATION property={} replay={}", PROP, doc["__path"].as_str().unwrap_or("?"));
+                println!("  key={} class={} {}", k, c, d);
+                1
+            }
+            None => {
+                println!("{} replay: property held on this rns_plain deployment", PROP);
+                0
+            }
+        };
+    }
     let Some(scn) = Scn::from_json(&doc["replay"]["scenario"]) else {
         eprintln!("replay file malformed");
         return 2;
